@@ -421,6 +421,11 @@ func (env *specEnv) ident(name string) SV {
 		l := e.refLoc(pv.Ref, pv.Elem)
 		return SV{T: e.load(env.cur, l), Sort: e.sortOf(pv.Elem), GT: pv.Elem}
 	}
+	if strings.HasPrefix(name, "call_") {
+		if v, ok := e.callLog[name]; ok {
+			return v
+		}
+	}
 	// function-level ghost
 	if e.fc != nil && !env.noLocals {
 		for _, g := range e.fc.Ghosts {
